@@ -612,6 +612,18 @@ def m_mem_replace(it, args, callee, depth):
     return old
 
 
+def m_each_ref(it, args, callee, depth):
+    r = args[0]
+    arr = A.deref_all(it, r)
+    if not (isinstance(arr, tuple) and arr[0] == "array" and isinstance(r, tuple) and r[0] == "ref"):
+        raise A.Undecided("each_ref on %r" % (arr,))
+    while isinstance(it.load_ref(r), tuple) and it.load_ref(r)[0] == "ref":
+        r = it.load_ref(r)
+    return ("array", [("ref", r[1], r[2], list(r[3]) + [{"ci": i, "ml": 0, "fe": False}]) for i in range(len(arr[1]))])
+
+
+ALG_MODELS["array::<impl [T; N]>::each_ref"] = m_each_ref
+ALG_MODELS["array::<impl [T; N]>::each_mut"] = m_each_ref
 ALG_MODELS["core::mem::replace"] = m_mem_replace
 ALG_MODELS["core::iter::traits::iterator::Iterator::by_ref"] = lambda it, args, callee, depth: args[0]
 ALG_MODELS["$vec::Vec::<T, A>::len"] = m_len
